@@ -1,15 +1,48 @@
 """C06  Integrated kinetics reproduce exact solutions and stay physically admissible."""
 from pyvc.api import harness
 from pyvc import spec as SP
+from fractions import Fraction as _F
 from pyvc.sym import Sym
 
 META = {
     "explanation": "the advertised explicit-Euler step: the closure max_euler_step_cb of get_odesys is proved safe for ANY right-hand side vector and any state inside [0, upper bound]: the returned h is non-negative, at most 1, and y + h*f stays inside [0, upper bound] component-wise (nlsat); the bound itself is the elemental upper bound of C15 (used through its contract). Agreement of the delegated integrator with exact solutions is not decidable by contracts: bounded stand-in (first-order networks vs matrix exponential, bimolecular steps vs closed forms).",
     "trusted_base": ["assumed contract 5.6 for odesys.pre_process / to_arrays / f_cb (identity pre-processing without units, f_cb returns the right-hand side vector)", "contract of ReactionSystem.upper_conc_bounds (proved in C15)"],
-    "not_decided": ["accuracy of CVODE/LSODA/scipy integration against exact solutions (adaptive numerical integrator, IEEE arithmetic): bounded only", "non-negativity of integrated trajectories beyond tolerance: bounded only"],
+    "not_decided": ["accuracy of CVODE/LSODA/scipy integration against exact solutions (adaptive numerical integrator, IEEE arithmetic): bounded only", "non-negativity of integrated trajectories beyond tolerance: bounded only; for the right-hand side itself quasi-positivity and conservation of the element supply are proved for a complete first-order network and a reversible bimolecular step with symbolic constants (symbolic_networks_...)",
+                    "systems with a kinetically inactive REACTANT, e.g. 'A + B + (S) -> C': S is consumed at a rate that does not depend on [S], so the model itself (and its exact solution) lets S become negative and C exceed its elemental bound; the admissibility clauses are not claimed for such systems (recorded observation, DESIGN 9; second review no. 1); from_text_to_right_hand_side only states that the text becomes that model"],
     "assumptions": ["three- and four-substance shapes for the step-size proof (the loop is over the components; each component's clause is independent)"],
 }
 ODE = "chempy.kinetics.ode"
+SP_TOL = _F(1, 10 ** 9)     # relative slack allowed below the largest safe Euler step
+
+
+def _same_term(a, b):
+    """the same symbolic value: the same object, or terms that simplify to the same term (t * 1, y + 0)"""
+    if a is b:
+        return True
+    import z3
+    try:
+        return isinstance(a, Sym) and isinstance(b, Sym) and z3.is_true(z3.simplify(a.e == b.e))
+    except Exception:
+        return False
+
+
+def _same_terms(got, want):
+    """the same symbolic terms in the same positions, whatever the container (list, tuple, object array): value, not object identity of the container"""
+    try:
+        got = list(got)
+    except TypeError:
+        return False
+    return len(got) == len(want) and all(_same_term(a, b) for a, b in zip(got, want))
+
+
+def _default_bounds_request(rsys, self, kw):
+    """the bound of the property is the ELEMENTAL UPPER bound of the system that was given: asked of a system with the given substances and
+    compositions, with the least ratio over the elements (min_=max would give the greatest: not a bound) and skipping the charge only (the
+    defaults of upper_conc_bounds, C15); dtype does not change the value"""
+    same_system = self is rsys or (list(self.substances) == list(rsys.substances)
+                                   and all(self.substances[k].composition == rsys.substances[k].composition for k in rsys.substances))
+    return (same_system and set(kw) <= {"min_", "skip_keys", "dtype"} and kw.get("min_", min) is min
+            and sorted(kw.get("skip_keys", (0,))) == [0])
 
 
 def _euler(n):
@@ -26,27 +59,39 @@ def _euler(n):
         ubs = [v.real("ub_" + s, lo=0, hi=1000) for s in names]
         fs = [v.real("f_" + s, lo=-1e3, hi=1e3) for s in names]
         v.assume(SP.conj([y <= ub for y, ub in zip(ys, ubs)]))
+        # the parameter vector of the call: the default (empty) for n = 3, 4; for n = 2 the rate constant is a parameter of the ODE system
+        # (include_params=False) and the callback is given a symbolic value for it, which must reach the right-hand side
+        ps = [v.real("p_k", lo=0, hi=10)] if n == 2 else []
         seen = []
-        v.contract(ReactionSystem.upper_conc_bounds, "upper_conc_bounds", None, lambda v_, self, init_concs, **kw: (seen.append(("bounds_of", init_concs)), list(ubs))[1])
+        v.contract(ReactionSystem.upper_conc_bounds, "upper_conc_bounds", None,
+                   lambda v_, self, init_concs, **kw: (seen.append(("bounds_of", init_concs, _default_bounds_request(rsys, self, kw))), list(ubs))[1])
 
         class Sys(FakeSymbolicSys):
             def f_cb(self, x, y, p):
-                seen.append(("rhs_at", x, y, tuple(p)))
+                seen.append(("rhs_at", x, y, p))
                 return list(fs)
-        odesys, extra = v.call(get_odesys, rsys, SymbolicSys=Sys)
+        odesys, extra = v.call(get_odesys, rsys, SymbolicSys=Sys, **(dict(include_params=False) if n == 2 else {}))
         cb = extra["max_euler_step_cb"]
         v.prove("callback_offered_when_compositions_known", cb is not None)
         t0 = v.real("t0", lo=0, hi=10)
-        h = v.call(cb, t0, ys)
-        v.prove("bounds_and_rhs_are_those_of_the_given_state", len(seen) == 2 and seen[0][0] == "bounds_of" and seen[0][1] is ys and seen[1][0] == "rhs_at" and seen[1][1] is t0 and seen[1][2] is ys
-                and seen[1][3] == ())
+        h = v.call(cb, t0, ys, ps) if n == 2 else v.call(cb, t0, ys)
+        # the bounds were asked for (at least once) and the right-hand side was evaluated (at least once), every time for the given state, time
+        # and parameters (the same terms: a copy of the vector into another container is not a different state), never for anything else
+        asked, evaluated = [r for r in seen if r[0] == "bounds_of"], [r for r in seen if r[0] == "rhs_at"]
+        v.prove("bounds_and_rhs_are_those_of_the_given_state", len(asked) >= 1 and len(evaluated) >= 1 and len(asked) + len(evaluated) == len(seen)
+                and all(_same_terms(r[1], ys) for r in asked) and all(_same_term(r[1], t0) and _same_terms(r[2], ys) and _same_terms(r[3], ps) for r in evaluated))
+        v.prove("bounds_are_the_elemental_upper_bounds_of_the_given_system", len(asked) >= 1 and all(r[2] for r in asked))
         v.prove_nl("step_is_non_negative", h >= 0)
         v.prove_nl("step_at_most_one", h <= 1)
         for y, ub, f, s in zip(ys, ubs, fs, names):
             v.prove_nl("stays_non_negative_" + s, y + h * f >= 0)
             v.prove_nl("stays_below_bound_" + s, y + h * f <= ub)
-        # not needlessly small: either the cap 1 is returned or some concentration reaches its limit exactly (0 when falling, the bound when rising)
-        v.prove_nl("step_is_as_large_as_safety_allows", SP.disj([h == 1] + [SP.conj([f < 0, y + h * f == 0]) for y, f in zip(ys, fs)] + [SP.conj([f > 0, y + h * f == ub]) for y, ub, f in zip(ys, ubs, fs)]))
+        # not needlessly small (excludes 'return 0'): either the cap 1 is returned (to within 1e-9) or some concentration has used up all but 1e-9 of its room (down
+        # to 0 when falling, up to the bound when rising), i.e. h >= (1 - 1e-9) * the largest safe step. The property only asks for safety, so a
+        # step rounded down by a few ulps / a safety factor close to 1 is still right; an exact 'reaches the limit' would outlaw that.
+        tol = SP_TOL
+        v.prove_nl("step_is_as_large_as_safety_allows", SP.disj([h >= 1 - tol] + [SP.conj([f < 0, y + h * f <= tol * y]) for y, f in zip(ys, fs)]
+                                                                + [SP.conj([f > 0, ub - (y + h * f) <= tol * (ub - y)]) for y, ub, f in zip(ys, ubs, fs)]))
     return _
 
 
@@ -70,18 +115,29 @@ def _(v):
     fs = [[v.real("f%d_%s" % (c, s), lo=-1e3, hi=1e3) for s in names] for c in (0, 1)]
     v.assume(SP.conj([y <= ub for c in (0, 1) for y, ub in zip(ys[c], ubs[c])]))
 
+    other = []      # requests that are for neither state, or not for the elemental upper bound of this system
+
+    def which(y):   # by the terms, not by the identity of the container (a copied vector is the same state)
+        for c in (0, 1):
+            if _same_terms(y, ys[c]):
+                return c
+        other.append(y)
+        return 0
+
     def bounds(v_, self, init_concs, **kw):
-        c = 0 if init_concs is ys[0] else 1
-        return list(ubs[c])
+        if not _default_bounds_request(rsys, self, kw):
+            other.append(kw)
+        return list(ubs[which(init_concs)])
     v.contract(ReactionSystem.upper_conc_bounds, "upper_conc_bounds", None, bounds)
 
     class Sys(FakeSymbolicSys):
         def f_cb(self, x, y, p):
-            return list(fs[0 if y is ys[0] else 1])
+            return list(fs[which(y)])
     odesys, extra = v.call(get_odesys, rsys, SymbolicSys=Sys)
     cb = extra["max_euler_step_cb"]
     v.call(cb, 0.0, ys[0])
     h = v.call(cb, 0.0, ys[1])
+    v.prove("only_the_two_given_states_are_looked_at", not other)
     v.prove_nl("second_call.step_is_non_negative", h >= 0)
     for y, ub, f, s in zip(ys[1], ubs[1], fs[1], names):
         v.prove_nl("second_call.stays_non_negative_" + s, y + h * f >= 0)
@@ -158,28 +214,43 @@ def _(v):
     from chempy.reactionsystem import ReactionSystem
     from chempy.kinetics.ode import get_odesys
     from contracts.C04 import FakeSymbolicSys
-    text = "\n".join(["A + 2 A -> B; 0.5", "B + A + 1 B -> 2 C + C; 0.25  # repeated on both sides", "C -> A; 3", "C -> D; 7", "D + 2 D -> A; 0.125"])
-    rsys = ReactionSystem.from_string(text, substance_factory=Substance)
-    v.prove("substances_in_order_of_appearance", list(rsys.substances) == ["A", "B", "C", "D"])
-    v.prove("stoichiometry_as_written", [(dict(r.reac), dict(r.prod)) for r in rsys.rxns] ==
-            [({"A": 3}, {"B": 1}), ({"B": 2, "A": 1}, {"C": 3}), ({"C": 1}, {"A": 1}), ({"C": 1}, {"D": 1}), ({"D": 3}, {"A": 1})])
-    odesys, extra = v.call(get_odesys, rsys, SymbolicSys=FakeSymbolicSys)
-    y = dict(zip(odesys.names, odesys.dep))
     from fractions import Fraction as F
-    r = [F(1, 2) * y["A"] ** 3, F(1, 4) * y["B"] ** 2 * y["A"], 3 * y["C"], 7 * y["C"], F(1, 8) * y["D"] ** 3]
-    want = {"A": -3 * r[0] - r[1] + r[2] + r[4], "B": r[0] - 2 * r[1], "C": 3 * r[1] - r[2] - r[3], "D": r[3] - 3 * r[4]}
-    for e, s in zip(odesys.exprs, "ABCD"):
-        v.prove_identity("rhs_" + s, e, want[s])
+    # the species that appears first in the text is the last in alphabetical order: the property does not say in which order the columns come,
+    # only that every column is paired with the name of its substance (the obligations below follow odesys.names, whatever their order)
+    text = "\n".join(["D + 2 D -> A; 0.125", "A + 2 A -> B; 0.5", "B + A + 1 B -> 2 C + C; 0.25  # repeated on both sides", "C -> A; 3", "C -> D; 7"])
+    rsys = ReactionSystem.from_string(text, substance_factory=Substance)
+
+    def written(rs):   # the reactions with their constants, as a collection (the order of the reactions changes no right-hand side)
+        return sorted(((sorted(r.reac.items()), sorted(r.prod.items()), r.param) for r in rs.rxns), key=repr)
+    v.prove("stoichiometry_as_written", written(rsys) == sorted([([("D", 3)], [("A", 1)], 0.125), ([("A", 3)], [("B", 1)], 0.5), ([("A", 1), ("B", 2)], [("C", 3)], 0.25),
+                                                                   ([("C", 1)], [("A", 1)], 3), ([("C", 1)], [("D", 1)], 7)], key=repr))
+    odesys, extra = v.call(get_odesys, rsys, SymbolicSys=FakeSymbolicSys)
+    # (the obligation keeps its historical name for the baseline; what it states is: the substances are those of the text, and the columns of the
+    # ODE system are named after them one by one -- not a particular order)
+    v.prove("substances_in_order_of_appearance", sorted(rsys.substances) == ["A", "B", "C", "D"] and tuple(odesys.names) == tuple(rsys.substances)
+            and len(odesys.exprs) == 4)
+
+    def model(y, k_ca):
+        r = [F(1, 2) * y["A"] ** 3, F(1, 4) * y["B"] ** 2 * y["A"], k_ca * y["C"], 7 * y["C"], F(1, 8) * y["D"] ** 3]
+        return {"A": -3 * r[0] - r[1] + r[2] + r[4], "B": r[0] - 2 * r[1], "C": 3 * r[1] - r[2] - r[3], "D": r[3] - 3 * r[4]}
+    want = model(dict(zip(odesys.names, odesys.dep)), 3)
+    for e, s in zip(odesys.exprs, odesys.names):
+        if s in want:
+            v.prove_identity("rhs_" + s, e, want[s])
     # the same system object after one rate constant was re-assigned: the next system built from it uses the new constant
-    rsys.rxns[2].param = 11
+    for r in rsys.rxns:
+        if dict(r.reac) == {"C": 1} and dict(r.prod) == {"A": 1}:
+            r.param = 11
     ode2, _x = v.call(get_odesys, rsys, SymbolicSys=FakeSymbolicSys)
-    y2 = dict(zip(ode2.names, ode2.dep))
-    r = [F(1, 2) * y2["A"] ** 3, F(1, 4) * y2["B"] ** 2 * y2["A"], 11 * y2["C"], 7 * y2["C"], F(1, 8) * y2["D"] ** 3]
-    want2 = {"A": -3 * r[0] - r[1] + r[2] + r[4], "B": r[0] - 2 * r[1], "C": 3 * r[1] - r[2] - r[3], "D": r[3] - 3 * r[4]}
-    for e, s in zip(ode2.exprs, "ABCD"):
-        v.prove_identity("rebuilt_after_changing_a_constant.rhs_" + s, e, want2[s])
+    want2 = model(dict(zip(ode2.names, ode2.dep)), 11)
+    v.prove("rebuilt_after_changing_a_constant.columns", sorted(ode2.names) == ["A", "B", "C", "D"] and len(ode2.exprs) == 4)
+    for e, s in zip(ode2.exprs, ode2.names):
+        if s in want2:
+            v.prove_identity("rebuilt_after_changing_a_constant.rhs_" + s, e, want2[s])
     # a reversible bimolecular step written as ONE equilibrium with a kinetically inactive participant on each side, split into its two directions:
     # the backward step gives back what the forward step takes (inactive parts mirrored), and neither enters a concentration product
+    # (this is 'the text becomes the model written in it' only: a rate that consumes S without depending on [S] is not quasi-positive, so the
+    # admissibility clauses of C06 are NOT claimed for systems with inactive reactants -- see META not_decided)
     from chempy.chemistry import Equilibrium
     eq = Equilibrium.from_string("A + B + (S) = C + (2 W); 4")
     for label, kw, kf, kb in (("kf_given", {"kf": 3}, 3, F(3, 4)), ("kb_given", {"kb": 5}, 20, 5)):
@@ -188,28 +259,90 @@ def _(v):
         y3 = dict(zip(ode3.names, ode3.dep))
         net = kf * y3["A"] * y3["B"] - kb * y3["C"]
         want3 = {"A": -net, "B": -net, "C": net, "S": -net, "W": 2 * net}
-        v.prove("reversible_step_with_inactive_parts.%s.names" % label, list(ode3.names) == ["A", "B", "C", "S", "W"])
-        for e, s in zip(ode3.exprs, "ABCSW"):
-            v.prove_identity("reversible_step_with_inactive_parts.%s.rhs_%s" % (label, s), e, want3[s])
+        v.prove("reversible_step_with_inactive_parts.%s.names" % label, sorted(ode3.names) == ["A", "B", "C", "S", "W"] and tuple(ode3.names) == tuple(sys3.substances)
+                and len(ode3.exprs) == 5)
+        for e, s in zip(ode3.exprs, ode3.names):
+            if s in want3:
+                v.prove_identity("reversible_step_with_inactive_parts.%s.rhs_%s" % (label, s), e, want3[s])
+
+
+@harness("C06", "symbolic_networks_are_linear_metzler_and_conserve_elements", functions=[ODE + ":get_odesys", ODE + ":get_odesys.<locals>.dydt"], kind="shape-bounded", samples=0)
+def _(v):
+    """the quantifier 'all first-order networks, rate constants over many decades' / 'all single-step bimolecular systems with positive
+    parameters', for the right-hand side that is handed to the integrator (symbolic rate constants k >= 0, no numbers):
+    (1) a first-order network over monomers A, B and dimers D, E with EVERY directed first-order step that conserves the element
+        (A <-> B, D <-> E, D/E -> 2 A / 2 B): the right-hand side is K.y with the matrix K written here from the reactions -- the matrix whose
+        exponential is the exact solution the bounded stand-in compares with; it is quasi-positive (y >= 0 and y_i = 0 give dy_i/dt >= 0: the
+        exact solution never becomes negative) and conserves the element (w.f = 0 for the composition vector w = (1, 1, 2, 2): no
+        concentration can exceed the supply of its element);
+    (2) the same two facts and the closed-form model for the reversible bimolecular step A + B -> C (kf), C -> A + B (kb)."""
+    from chempy.chemistry import Reaction, Substance
+    from chempy.reactionsystem import ReactionSystem
+    from chempy.kinetics.ode import get_odesys
+    from contracts.C04 import FakeSymbolicSys
+
+    def admissible(label, ode, w):
+        ys = dict(zip(ode.names, ode.dep))
+        nonneg = SP.conj([y >= 0 for y in ys.values()])
+        tot = 0
+        for e, s in zip(ode.exprs, ode.names):
+            v.prove_nl("%s.quasi_positive_%s" % (label, s), SP.implies(SP.conj([nonneg, ys[s] == 0]), e >= 0))
+            tot = tot + w[s] * e
+        v.prove_identity(label + ".element_supply_is_conserved", tot, 0)
+
+    w = {"A": 1, "B": 1, "D": 2, "E": 2}
+    subs = [Substance(s, composition={1: w[s]}) for s in "ABDE"]
+    steps = [("A", "B", 1), ("B", "A", 1), ("D", "E", 1), ("E", "D", 1), ("D", "A", 2), ("D", "B", 2), ("E", "A", 2), ("E", "B", 2)]     # (from, to, number formed)
+    k = {(a, b): v.real("k_%s%s" % (a, b), lo=0, hi=1e6) for a, b, _n in steps}
+    rsys = ReactionSystem([Reaction({a: 1}, {b: n}, k[a, b], checks=()) for a, b, n in steps], subs, checks=())
+    ode, extra = v.call(get_odesys, rsys, SymbolicSys=FakeSymbolicSys)
+    v.prove("first_order.columns", sorted(ode.names) == ["A", "B", "D", "E"] and len(ode.exprs) == 4)
+    y = dict(zip(ode.names, ode.dep))
+    # K[i][j]: what one unit of j produces of i per unit time; the diagonal is minus everything that leaves j
+    K = {i: {j: 0 for j in w} for i in w}
+    for a, b, n in steps:
+        K[b][a] = K[b][a] + n * k[a, b]
+        K[a][a] = K[a][a] - k[a, b]
+    for e, s in zip(ode.exprs, ode.names):
+        if s in K:
+            v.prove_identity("first_order.rhs_is_K_y_" + s, e, sum(K[s][j] * y[j] for j in w))
+    admissible("first_order", ode, w)
+    v.prove("first_order.step_callback_offered", extra["max_euler_step_cb"] is not None)
+
+    wb = {"A": 1, "B": 3, "C": 4}           # one element, A + B -> C balanced: 1 + 3 = 4
+    kf, kb = v.real("kf", lo=0, hi=1e6), v.real("kb", lo=0, hi=1e6)
+    rs2 = ReactionSystem([Reaction({"A": 1, "B": 1}, {"C": 1}, kf, checks=()), Reaction({"C": 1}, {"A": 1, "B": 1}, kb, checks=())],
+                         [Substance(s, composition={1: wb[s]}) for s in "ABC"], checks=())
+    ode2, extra2 = v.call(get_odesys, rs2, SymbolicSys=FakeSymbolicSys)
+    v.prove("bimolecular.columns", sorted(ode2.names) == ["A", "B", "C"] and len(ode2.exprs) == 3)
+    y2 = dict(zip(ode2.names, ode2.dep))
+    net = kf * y2["A"] * y2["B"] - kb * y2["C"]
+    want = {"A": -net, "B": -net, "C": net}
+    for e, s in zip(ode2.exprs, ode2.names):
+        if s in want:
+            v.prove_identity("bimolecular.rhs_" + s, e, want[s])
+    admissible("bimolecular", ode2, wb)
 
 
 @harness("C06", "euler_step_with_scaled_variables_and_missing_constants", functions=[ODE + ":get_odesys", ODE + ":get_odesys.<locals>.max_euler_step_cb"], kind="data")
 def _(v):
     """(a) the advertised Euler step on the real pyodesys classes, also when the ODE system keeps its dependent variables in scaled form
     (ScaledSys, dep_scaling -- the configuration chempy's own examples use for stiff problems): one explicit step from the USER's concentrations
-    with the independent mass-action rate stays inside [0, elemental bound] for a bimolecular step; (b) 'agree with the exact solution': a
+    with the independent mass-action rate stays inside [0, elemental bound] for a bimolecular step, and is the largest such step (to 1e-9);
+    the same with the rate constants as parameters of the ODE system, given with the call; (b) 'agree with the exact solution': a
     network in which one reaction has no rate constant has no solution to agree with -- it is refused, never integrated with the remaining
-    constants shifted onto other reactions"""
-    from chempy.chemistry import Substance
+    constants shifted onto other reactions (control: the same texts with the constant filled in are accepted and are the model written)"""
+    from chempy.chemistry import Substance, Reaction
     from chempy.reactionsystem import ReactionSystem
     from chempy.kinetics.ode import get_odesys
+    from chempy.kinetics.rates import MassAction
     from pyodesys.symbolic import ScaledSys
     kf = 1.4e11
-    rsys = ReactionSystem.from_string("H+ + OH- -> H2O; %r" % kf)
     cases = [{"H+": 1e-3, "OH-": 2e-4, "H2O": 55.0}, {"H+": 3e-7, "OH-": 5e-6, "H2O": 1.0}, {"H+": 0.25, "OH-": 0.75, "H2O": 0.0}]
-    bad = []
+    bad, small = [], []
     for label, kw in (("plain", {}), ("dep_scaling=1e6", dict(SymbolicSys=ScaledSys, dep_scaling=1e6)), ("dep_scaling=1e-3", dict(SymbolicSys=ScaledSys, dep_scaling=1e-3))):
         try:
+            rsys = ReactionSystem.from_string("H+ + OH- -> H2O; %r" % kf)
             odesys, extra = get_odesys(rsys, **kw)
             for c0 in cases:
                 h = float(extra["max_euler_step_cb"](0, c0))
@@ -222,14 +355,61 @@ def _(v):
                     c1 = c0[k] + h * f[k]
                     if not (h > 0 and -1e-12 * scale <= c1 <= ub[k] * (1 + 1e-12) + 1e-12 * scale):
                         bad.append((label, c0, h, k, c1))
+                # the largest safe step from the definition: the cap 1, or the first of the two reactants to run out / the product to reach its bound
+                want = min(1, c0["H+"] / r, c0["OH-"] / r, (ub["H2O"] - c0["H2O"]) / r)
+                if not h >= (1 - 1e-9) * want:
+                    small.append((label, c0, h, want))
         except Exception as ex:
             bad.append((label, repr(ex)[:120]))
+            small.append((label, repr(ex)[:120]))
     v.prove("one_step_from_user_concentrations_stays_inside", not bad, detail=repr(bad[:2]))
-    answered = []
-    for text in ("A -> B; 2\nB -> C\nC -> D; 5", "A -> B\nB -> C; 2"):
+    v.prove("one_step_from_user_concentrations_is_as_large_as_safety_allows", not small, detail=repr(small[:2]))
+    # rate constants as parameters of the ODE system (include_params=False), values given with the call -- not the defaults of the reactions:
+    # A -> B (k1), B -> A (k2), both substances of composition {1: 1} so both bounds are A + B; f_A = -k1 A + k2 B = -f_B.
+    wrong = []
+    try:
+        subs = [Substance(s, composition={1: 1}) for s in "AB"]
+        rsys = ReactionSystem([Reaction({"A": 1}, {"B": 1}, MassAction([3.0], unique_keys=["k1"])), Reaction({"B": 1}, {"A": 1}, MassAction([7.0], unique_keys=["k2"]))], subs)
+        odesys, extra = get_odesys(rsys, include_params=False)
+        cb = extra["max_euler_step_cb"]
+        for c0, par in (({"A": 1.0, "B": 0.0}, {"k1": 30.0, "k2": 7.0}), ({"A": 0.25, "B": 0.75}, {"k1": 2.0, "k2": 40.0}), ({"A": 0.5, "B": 0.5}, {"k1": 0.25, "k2": 0.125})):
+            fA = -par["k1"] * c0["A"] + par["k2"] * c0["B"]
+            tot = c0["A"] + c0["B"]
+            want = min(1, (c0["A"] / -fA) if fA < 0 else (tot - c0["A"]) / fA, (c0["B"] / fA) if fA > 0 else (tot - c0["B"]) / -fA)   # 1/30, 0.75/29.5, 1
+            forms = [(c0, par), (dict(reversed(list(c0.items()))), dict(reversed(list(par.items())))), ([c0[k] for k in odesys.names], [par[k] for k in odesys.param_names])]
+            for y, p in forms:
+                h = float(cb(0, y, p))
+                if not (1 - 1e-9) * want <= h <= (1 + 1e-9) * want:
+                    wrong.append((y, p, h, want))
+    except Exception as ex:
+        wrong.append(repr(ex)[:160])
+    v.prove("step_uses_the_parameter_values_given_with_the_call", not wrong, detail=repr(wrong[:2]))
+    # (b) the texts are read as written (nothing shifted), then refused by get_odesys
+    answered, misread = [], []
+    for text, params in (("A -> B; 2\nB -> C\nC -> D; 5", [2, None, 5]), ("A -> B\nB -> C; 2", [None, 2])):
         try:
-            o, _e = get_odesys(ReactionSystem.from_string(text, substance_factory=Substance))
+            rsys = ReactionSystem.from_string(text, substance_factory=Substance)
+            if [r.param for r in rsys.rxns] != params:
+                misread.append((text, [r.param for r in rsys.rxns]))
+        except Exception:     # refusing such a text already when it is read is a refusal too
+            continue
+        try:
+            o, _e = get_odesys(rsys)
             answered.append((text, str(getattr(o, "exprs", None))[:120]))
         except Exception:
             pass
     v.prove("missing_rate_constant_is_refused", not answered, detail=repr(answered))
+    v.prove("missing_rate_constant.text_read_as_written", not misread, detail=repr(misread))
+    # control: with the constant filled in the same texts are accepted and are the first-order chains written in them; hand values at
+    # (A, B, C, D) = (1.5, 0.5, 0.25, 2): -2A, 2A - 3B, 3B - 5C, 5C = -3, 1.5, 0.25, 1.25 and -3A, 3A - 2B, 2B = -4.5, 3.5, 1
+    y0 = {"A": 1.5, "B": 0.5, "C": 0.25, "D": 2.0}
+    off = []
+    for text, want in (("A -> B; 2\nB -> C; 3\nC -> D; 5", {"A": -3.0, "B": 1.5, "C": 0.25, "D": 1.25}), ("A -> B; 3\nB -> C; 2", {"A": -4.5, "B": 3.5, "C": 1.0})):
+        try:
+            o, _e = get_odesys(ReactionSystem.from_string(text, substance_factory=Substance))
+            got = dict(zip(o.names, [float(x) for x in o.f_cb(0, [y0[k] for k in o.names], [])]))
+            if set(got) != set(want) or any(abs(got[k] - want[k]) > 1e-12 for k in want):
+                off.append((text, got))
+        except Exception as ex:
+            off.append((text, repr(ex)[:160]))
+    v.prove("missing_rate_constant.control_with_constant_is_accepted", not off, detail=repr(off[:2]))
